@@ -298,3 +298,13 @@ build_whole_unit("C09.build_end_to_end.variant_b", "C09", "B")
 from contracts.c01 import register_cache_core  # noqa: E402
 
 register_cache_core("C09")
+
+
+# the built-in Gibbs kernel for smoothing variances starts from the state it is handed (hyper-parameters, penalty, coefficients as the preceding
+# kernels left them), not from what the variables held when the kernel was created (same harness as C13.tau2_transition / C13.group_value_from)
+import contracts.c13  # noqa: E402,F401
+from pyvc.unit import reuse  # noqa: E402
+
+reuse("C13.tau2_transition", "C09.tau2_kernel_reads_the_state_it_is_handed", "C09")
+reuse("C13.group_value_from", "C09.group_values_are_read_from_the_given_state", "C09")
+reuse("C13.finite_discrete", "C09.finite_discrete_kernel_leaves_the_users_model_and_reads_the_given_state", "C09")
